@@ -270,3 +270,26 @@ def _c11_compactify(rec):
         return False
     src = rec.get("input") or ""
     return re.search(r"('''|\"\"\")[^'\"]*\n[^'\"]*\n", src) is not None
+
+
+@classifier("common-head-moved-before-effectful-test")
+def _c16_common_head(rec):
+    """breakout_common_code_in_ifs moves a statement that starts every branch to before the if; when the test itself has an
+    effect (a call) the order of the two effects is swapped, and if the statement raises or returns the test is never evaluated.
+    The repository's own examples expect this reordering (`if random.random() < 2: print(100) ...`)."""
+    rule, before, after = _step(rec)
+    if rule != "fixes.breakout_common_code_in_ifs" or rec.get("kind") not in ("deleted_code_was_observable", "step_changes_behaviour", "program_behaves_differently"):
+        return False
+    tree = _parse(before or "")
+    if tree is None:
+        return False
+    for node in ast.walk(tree):
+        if isinstance(node, ast.If) and node.orelse and any(isinstance(n, ast.Call) for n in ast.walk(node.test)):
+            a, b = node.body[0], node.orelse[0]
+            while isinstance(b, ast.If) and ast.dump(a) != ast.dump(b) and b.body:
+                b = b.body[0]
+            while isinstance(a, ast.If) and ast.dump(a) != ast.dump(b) and a.body:
+                a = a.body[0]
+            if ast.dump(a) == ast.dump(b):
+                return True
+    return False
